@@ -10,9 +10,7 @@ vars == <<h, in, hist>>
 IdleW    == W(<<0, 0, 0, 0>>, 0)
 Words == { IdleW,                                         \* valid logical idle
            [IdleW EXCEPT !.v = FALSE],                    \* not valid, shows zeroes
-           W(<<0, 0, 1, 0>>, 0),                          \* valid data
-           W(<<0, 0, 0, 0>>, 8),                          \* valid, a K symbol with value 0
-           [d |-> <<7, 7, 7, 7>>, c |-> 0, v |-> FALSE] } \* not valid, shows data
+           W(<<0, 0, 0, 0>>, 8) }                         \* valid, but a K symbol (value 0): not logical idle
 Init == h = HsInit /\ in = [en |-> FALSE, iw |-> NoWord, cpl |-> FALSE] /\ hist = <<>>
 
 Cycle(en, w) ==
